@@ -92,3 +92,45 @@ func VerifHarness_C13_Paired2NLPQ() { c13Paired(2, verifIntRange("shape", 0, 2),
 func VerifHarness_C13_Paired3NLPQ() { c13Paired(3, verifIntRange("shape", 0, 2), true, false) }
 func VerifHarness_C13_Paired2()     { c13Paired(2, verifIntRange("shape", 0, 2), false, true) }
 func VerifHarness_C13_Paired2NLP()  { c13Paired(2, verifIntRange("shape", 0, 2), true, true) }
+
+// NLP on, and the boosted word is itself a detected action / target of the query (the engine
+// already emphasises such words): a context boost on it must still never lower a score
+func VerifHarness_C13_PairedAction() {
+	mk := func(cmd, desc string, kws ...string) Command {
+		c := Command{Command: cmd, Description: desc, Keywords: kws}
+		vFill(&c)
+		return c
+	}
+	db := &Database{Commands: []Command{
+		mk("go build", "build module", "build"), mk("find aa", "search files", "find"), mk("bb", "build files"), mk("cc", "dd"),
+	}}
+	db.BuildUniversalIndex()
+	db.buildTFIDFSearcher()
+	word := []string{"build", "find", "files", "module"}[verifIntRange("word", 0, 3)]
+	q := word + " " + []string{"module", "files", "aa"}[verifIntRange("second", 0, 2)]
+	// factors on a grid (below, at and above the engine's own emphasis of 1.6 / 2.0): all
+	// scores stay concrete, the choices stay symbolic
+	f := []float64{1, 1.3, 1.5, 1.6, 1.8, 2, 3, 1e6}[verifIntRange("factor", 0, 7)]
+	base := SearchOptions{Limit: 9, AllPlatforms: true, UseNLP: true}
+	with := base
+	with.ContextBoosts = map[string]float64{word: f}
+	r0 := db.SearchUniversal(q, base)
+	r1 := db.SearchUniversal(q, with)
+	verifAssert(len(r0) == len(r1), "C13: context boosts never add or remove a candidate")
+	for _, a := range r0 {
+		for _, b := range r1 {
+			if a.Command != b.Command {
+				continue
+			}
+			if c13Contains(a.Command, word) {
+				verifAssert(b.Score >= a.Score, "C13: boosting a word never lowers the score of a command containing it")
+			} else {
+				verifAssert(c03SameFloat(a.Score, b.Score), "C13: boosting a word never changes the score of a command that does not contain it")
+			}
+		}
+	}
+	verifReach("paired")
+	if len(r0) > 0 {
+		verifReach("nonempty")
+	}
+}
